@@ -32,9 +32,11 @@ func (markCodec) Read(data []byte, ptr unsafe.Pointer, wt plenccore.WireType) (i
 	*(*int32)(ptr) = int32(uint32(u))
 	return n, nil
 }
-func (markCodec) New() unsafe.Pointer              { return unsafe.Pointer(new(int32)) }
-func (markCodec) WireType() plenccore.WireType     { return plenccore.WTVarInt }
-func (markCodec) Descriptor() plenccodec.Descriptor { return plenccodec.Descriptor{Type: plenccodec.FieldTypeUint} }
+func (markCodec) New() unsafe.Pointer          { return unsafe.Pointer(new(int32)) }
+func (markCodec) WireType() plenccore.WireType { return plenccore.WTVarInt }
+func (markCodec) Descriptor() plenccodec.Descriptor {
+	return plenccodec.Descriptor{Type: plenccodec.FieldTypeUint}
+}
 func (markCodec) Size(ptr unsafe.Pointer, tag []byte) int {
 	return len(tag) + 6
 }
@@ -55,9 +57,11 @@ func (markCodecU) Read(data []byte, ptr unsafe.Pointer, wt plenccore.WireType) (
 	*(*int)(ptr) = int(int32(uint32(u)))
 	return n, nil
 }
-func (markCodecU) New() unsafe.Pointer              { return unsafe.Pointer(new(int)) }
-func (markCodecU) WireType() plenccore.WireType     { return plenccore.WTVarInt }
-func (markCodecU) Descriptor() plenccodec.Descriptor { return plenccodec.Descriptor{Type: plenccodec.FieldTypeUint} }
+func (markCodecU) New() unsafe.Pointer          { return unsafe.Pointer(new(int)) }
+func (markCodecU) WireType() plenccore.WireType { return plenccore.WTVarInt }
+func (markCodecU) Descriptor() plenccodec.Descriptor {
+	return plenccodec.Descriptor{Type: plenccodec.FieldTypeUint}
+}
 func (markCodecU) Size(ptr unsafe.Pointer, tag []byte) int {
 	return len(tag) + 6
 }
